@@ -84,7 +84,7 @@ TABLE = {
                 "_render_ must appear in the compared key, and stored details equal compared details; the cache index is the rendered frame number; padded frames are never "
                 "stored; a hit renders nothing; cache switch (INDEFINITE, bool, frame_count<=cache, loops==1); ImageIterator stores a fresh size hash after each render.",
         "note": _NOTE + " Relational equivalence of cached and uncached runs over all histories is not decided.",
-        "technique": "writer-table vs reader-table agreement (mutable cells vs cache key), per-entry validity on traced expressions, inventory of per-frame stores, CFG reachability (no store after padding), finite-domain decision of the cache switch, def-use of the size hash",
+        "technique": "writer-table vs reader-table agreement (mutable cells vs cache key), miss condition as the disjuncts of its traced truth value (negation normal form through conditional expressions), per-entry validity on traced expressions, inventory of per-frame stores, CFG reachability (no store after padding), finite-domain decision of the cache switch, def-use of the size hash",
     },
     "C01": {
         "text": "Every control-sequence template of _ctlseqs.py is constant-folded from the syntax tree and parsed against an ECMA-48 template grammar (complete "
@@ -92,7 +92,7 @@ TABLE = {
                 "cursor/erase template proven >= 1 (size clamp or dominating guard); per renderer the newline-bearing fragments occur rendered_height-1 times in recognised "
                 "idioms, lines end with the style's cursor policy (kitty C=1 + CUF w; iterm2 doNotMoveCursor iff konsole advance; block SGR reset), chunked transmissions terminate.",
         "note": _NOTE + " That the payload paints c x r cells, wrapping/scrolling and the konsole/iterm2 cursor-movement model are terminal behaviour - not decided.",
-        "technique": "constant folding + grammar check of control-sequence templates, sign analysis of template operands, symbolic output-shape analysis of the renderers (regular-expression-like term of the emitted text; newline count as a polynomial, Glushkov follow sets, case split on the free conditions), who-may-write on the escape alphabet",
+        "technique": "constant folding + grammar check of control-sequence templates, sign analysis of template operands, induction-variable polynomials for the block line loop, symbolic output-shape analysis of the renderers (regular-expression-like term of the emitted text; newline count as a polynomial, Glushkov follow sets, case split on the free conditions), who-may-write on the escape alphabet",
     },
     "C03": {
         "text": "Chunk protocol decided on the generator's look-ahead structure (or on recognised alternatives via polynomial comparison of position vs length); "
@@ -100,7 +100,7 @@ TABLE = {
                 "(seek/tell/seek/read; seek/save/truncate/tell per reused strip buffer); the read-from-file gate has exactly the documented conjuncts; the o=z flag is "
                 "set under state-only conditions because the ControlData is shared across strips.",
         "note": _NOTE + " Decoded payload == image pixels and strip stitching are runtime data (zlib/base64/PNG) - not decided.",
-        "technique": "protocol rule over a generator (look-ahead idiom / affine boundary evaluation), control-key provenance on traced expressions (backward value slices), image-command arguments read off the symbolic output shape, call-order typestate on buffers, guard-set comparison, must-order on the CFG",
+        "technique": "finite-state abstract interpretation of the chunking generator (read-offset values, nondeterministic end of payload, m-flag monitor; idiom rules as fallback), control-key provenance on traced expressions (backward value slices), image-command arguments read off the symbolic output shape, call-order typestate on buffers, guard-set comparison, must-order on the CFG",
     },
     "C12": {
         "text": "Request/stop-predicate/drain/parser agreement at every query_terminal call site (DA1 sentinel last; complete vs prefix predicate by reply alphabet; "
@@ -108,7 +108,7 @@ TABLE = {
                 "exactly by DFA equality on constant-folded patterns; swap applies to every source of the text-area size; per-component colour scaling; fallbacks "
                 "(disabled -> None first, guarded responses, bounded reads); style preference table and support rules.",
         "note": _NOTE + " Reply timing, select behaviour and byte-stream splits are schedules over a device - not decided.",
-        "technique": "sibling call-site agreement, constant folding + regular-language equality of response patterns, CFG dominance (swap covers all sources), def-use of the colour scale",
+        "technique": "sibling call-site agreement, constant folding + regular-language equality of response patterns, traced condition sets of the support decisions decided on finite abstract domains, CFG dominance (swap covers all sources), def-use of the colour scale",
     },
     "C02": {
         "text": "The structural core of the run-length state machine: the run-boundary predicate is canonicalised (chained comparisons -> relation sets) and must be "
